@@ -704,6 +704,58 @@ def invalid_utf8_step(binary, v):
     v.cov["invalid_utf8_shapes"] = len(INVALID_UTF8)
 
 
+def _special_entries(src):
+    """name -> function creating a directory entry named *.rs that is not an ordinary file"""
+    import socket
+
+    def sock(p):
+        so = socket.socket(socket.AF_UNIX)
+        so.bind(p)
+        so.close()
+    return {
+        "fifo": lambda p: os.mkfifo(p),
+        "socket": sock,
+        "directory": lambda p: (os.mkdir(p), open(os.path.join(p, "inner.rs"), "w").write('fn i(){ info!("inner"); }\n')),
+        "dangling-link": lambda p: os.symlink(os.path.join(src, "nowhere.rs"), p),
+        "link-loop": lambda p: os.symlink(p, p),
+        "link-to-fifo": lambda p: (os.mkfifo(p + ".pipe"), os.symlink(p + ".pipe", p)),
+        "link-to-dev-zero": lambda p: os.symlink("/dev/zero", p),
+        "link-to-directory": lambda p: os.symlink(src, p),
+    }
+
+
+def special_files_step(binary, v):
+    """Something named like a source file that is no ordinary file (a named pipe nobody writes to, a socket, a directory,
+    links that lead nowhere, in circles or to an endless device): both modes end by themselves and the ordinary files next
+    to it are processed."""
+    kinds = sorted(_special_entries(""))
+    for structured in (False, True):
+        for kind in kinds:
+            P = bl.Project(structured=structured, tag="sf")
+            try:
+                P.write_sources({"a.rs": 'fn a(){ info!("alpha"); }\n', "z.rs": 'fn z(){ info!("omega"); }\n'})
+                _special_entries(P.src)[kind](os.path.join(P.src, "events.rs"))
+                for check in (True, False):
+                    r = bl.run_breadlog(binary, P.config_path, check=check, tmpdir=P.tmp, shim=False, timeout=20)
+                    v.evaluated(("special-file", kind, structured, check))
+                    if r.exit_class in ("panic", "timeout", "signal", "killed"):
+                        v.violation({"check": "NoPanicNoHang", "family": "special-file", "file": kind, "mode": "check" if check else "edit"},
+                                    "C17: breadlog %s in %s mode with a %s named events.rs in the source directory: %s" % (
+                                        r.exit_class, "check" if check else "edit", kind, r.stderr[-200:]),
+                                    {"family": "special-file", "kind": kind})
+                        break
+                else:
+                    for name in ("a.rs", "z.rs"):
+                        data = open(os.path.join(P.src, name), "rb").read()
+                        if b"[ref: " not in data and b"ref = " not in data:
+                            v.violation({"check": "OthersStillProcessed", "family": "special-file", "file": kind},
+                                        "C17: the ordinary file %s next to a %s named events.rs was not processed" % (name, kind),
+                                        {"family": "special-file", "kind": kind})
+            finally:
+                P.close()
+    v.cov["special_file_kinds"] = len(kinds)
+
+
 def c17(tier):
     v = Verdict("C17", tier, level="exploration")
     binary = common.build_breadlog()
@@ -714,6 +766,7 @@ def c17(tier):
     run_cases(binary, cases, v, {"C17"}, "decoy")
     deep_nesting_step(binary, v, tier)
     invalid_utf8_step(binary, v)
+    special_files_step(binary, v)
     run_cases(binary, reftoken_cases(v, "quick"), v, {"C17"}, "reftoken", solo=0)
     run_cases(binary, tlc_cases(v, "intended/StmtKv.cfg"), v, {"C17"}, "kv", solo=0)
     dpacks, dsolo = directive_packs(v, "quick")
